@@ -107,7 +107,7 @@ func TestSlowSubscriber(t *testing.T) {
 			}
 		}
 		// everything published has been handed over when Apply returned (Publish is synchronous); give the consumer a moment to append
-		deadline := time.Now().Add(5 * time.Second)
+		deadline := time.Now().Add(60 * time.Second) // only ever waited out when the consumer goroutine is starved
 		for {
 			mu.Lock()
 			k, ns := len(got), newSeen
